@@ -1,7 +1,7 @@
 (* C12 - Statistics only accumulate; taking a snapshot changes nothing.  Statements only. *)
 From Coq Require Import List ZArith Bool.
 From Coq Require Import Sorted.
-From LP Require Import Trace.ZMap Trace.Concrete Trace.ConcreteFacts Trace.RefineLemmas Trace.Main Trace.Witness Trace.Stats Trace.Report.
+From LP Require Import Trace.ZMap Trace.Concrete Trace.ConcreteFacts Trace.RefineLemmas Trace.Main Trace.Witness Trace.Stats Trace.Report Trace.LabelMono.
 Import ListNotations.
 Open Scope Z_scope.
 
@@ -51,3 +51,25 @@ Theorem C12_wellformed :
     /\ (forall l h1 t1 h2 t2, In (l, h1, t1) ents -> In (l, h2, t2) ents -> h1 = h2 /\ t1 = t2)
     /\ (forall l h t, In (l, h, t) ents -> 1 <= h).
 Proof. exact snapshot_wellformed. Qed.
+
+(* REPORT LEVEL, every history: the hit count shown for (label, line) - label_hits, the value of the
+   snapshot entry by snapshot_entry_values - never decreases from any state reached by a history to the
+   state reached by any extension of it (registering again, enabling, running, disabling, snapshotting in
+   any order), and a label that is reported stays reported.  (True of the pinned tree only after the
+   "fix:" commit 1e1eb0e: before it, a later code object with the same label replaced the entry.) *)
+Theorem C12_report_hits_monotone :
+  forall codes tick start ops1 ops2 lbl l,
+    label_hits codes (run codes tick start ops1) lbl l <= label_hits codes (run codes tick start (ops1 ++ ops2)) lbl l.
+Proof. exact run_label_hits_monotone. Qed.
+
+Theorem C12_label_stays_reported :
+  forall codes tick ops st lbl,
+    label_present codes st lbl -> label_present codes (fold_left (step codes tick) ops st) lbl.
+Proof. exact label_stays_present. Qed.
+
+(* label_hits is what the snapshot shows *)
+Theorem C12_snapshot_entry_is_label_hits :
+  forall codes tick start ops lbl ents l h t,
+    In (lbl, ents) (get_stats codes (run codes tick start ops)) -> In (l, h, t) ents ->
+    h = label_hits codes (run codes tick start ops) lbl l.
+Proof. exact snapshot_entry_is_label_hits. Qed.
